@@ -5,6 +5,7 @@ package main
 import (
 	"fmt"
 	"go/types"
+	"os"
 
 	"golang.org/x/tools/go/ssa"
 )
@@ -192,6 +193,33 @@ func runC20(w *World, r *Report) {
 		r.seen(shortFn(fn))
 		noDroppedErrors(w, r, "no-dropped-error", fn)
 	}
+	// the saved file holds exactly the sealed bytes: writers replace the file's content
+	r.rule("save-replaces-file", "every file opened for writing on the wallet save path truncates (or exclusively creates) it, so that the file holds exactly the bytes just sealed", 2)
+	nSinks := 0
+	for _, fn := range w.RepoFuncs("fileoperations") {
+		for _, c := range callsTo(fn, "os.WriteFile") {
+			nSinks++
+			r.ok("save-replaces-file", shortFn(fn)+"/os.WriteFile", lineOf(w, c), "os.WriteFile truncates by definition")
+		}
+		for _, c := range callsTo(fn, "os.OpenFile") {
+			flag, isConst := intConst(c.Common().Args[1])
+			key := shortFn(fn) + "/os.OpenFile"
+			if !isConst {
+				r.undecided("save-replaces-file", key, lineOf(w, c), "open flags must be constant to be decided", "non-constant flags")
+				continue
+			}
+			writes := flag&int64(os.O_WRONLY|os.O_RDWR) != 0
+			if !writes {
+				continue
+			}
+			nSinks++
+			ok := flag&int64(os.O_TRUNC) != 0 || flag&int64(os.O_EXCL) != 0
+			r.check(ok, "save-replaces-file", key, lineOf(w, c), "a file opened for writing is truncated or exclusively created",
+				fmt.Sprintf("flags %#x lack O_TRUNC/O_EXCL: saving over a longer file leaves its tail behind and the wallet no longer reads back", flag))
+		}
+	}
+	r.Extra["file_write_sinks"] = nSinks
+
 	// pem.Decode returns a nil block for garbage: ReadFromPem must test it
 	r.rule("pem-block-nil", "the block returned by pem.Decode is nil-tested before use", 2)
 	if fn := w.Func("fileoperations", "Helper", "ReadFromPem"); fn != nil {
